@@ -178,7 +178,7 @@ class Operand(ABC):
         fits_direct = self.value.is_direct() and self.value.int < 0x100 and not self.value.is_negative()
         if old_value.is_explicit_extended():
             fits_direct = False
-        if self.value.is_numeric() and (fits_direct or old_value.is_explicit_direct()):
+        if old_value.is_explicit_direct() or (self.value.is_numeric() and fits_direct):
             return DirectOperand(self.operand_string, self.instruction, self.value)
 
         return ExtendedOperand(self.operand_string, self.instruction, value=self.value)
@@ -485,6 +485,9 @@ class DirectOperand(Operand):
             size=self.instruction.mode.dir_sz,
             max_size=self.instruction.mode.dir_sz,
         )
+
+    def address_digits(self):
+        return 2
 
 
 class ExtendedOperand(Operand):
